@@ -203,6 +203,9 @@ def validate_traces(r, files, props, maxfix=2):
             if ev.get("ev") == "begin":
                 raise core.Inconclusive("generator claim rejected by the specification: %s" % gtext(begin["G"]))
             res["drift_cases"] += 1
+            res.setdefault("drift_grammars", [])
+            if len(res["drift_grammars"]) < 6 and not any(x["G"] == begin["G"] for x in res["drift_grammars"]):
+                res["drift_grammars"].append({"G": begin["G"], "w": begin["w"], "B": begin["B"], "adm": begin["adm"]})
             if res["violations"] == nv:
                 r.drift.append("real trace of grammar [%s] on %r leaves ParsleyMachine at event %d (%s node %s pos %s) while every %s predicate holds on it"
                                % (gtext(begin["G"]), wtext(begin["w"]), k0 - b, ev.get("ev"), ev.get("n"), ev.get("pos"), "/".join(props)))
@@ -214,7 +217,41 @@ def validate_traces(r, files, props, maxfix=2):
             core.write_ndjson(path, cur_rows)
             cur_o = r.tlc("ParsleyTrace", cfg_text=trace_cfg(False, props), workers=1, env={"TRACE": path}, timeout=1700)
     r.traces += res["accepted_cases"]
+    if res.get("drift_grammars") and props and not getattr(r, "_escalating", False):
+        escalate(r, res.pop("drift_grammars"), props, res)
     return res
+
+
+def escalate(r, grammars, props, res):
+    """DRIFT means the code no longer follows the operational model on these grammars although the predicates held on the
+    explored inputs. The remaining budget is spent on exactly these grammars: every input one byte longer than the
+    drifting one (over the grammar's own terminals), judged by the property predicates alone."""
+    import itertools
+    r._escalating = True
+    try:
+        cases = []
+        for g in grammars:
+            alpha = sorted({n["ch"] for n in g["G"] if n["k"] == "term"}) or [97]
+            maxlen = min(len(g["w"]) + 1, 6 if len(alpha) <= 2 else 5)
+            for L in range(0, maxlen + 1):
+                for w in itertools.product(alpha, repeat=L):
+                    if len(cases) > 1500:
+                        break
+                    cases.append({"G": g["G"], "w": list(w), "B": g["B"], "adm": g["adm"],
+                                  "asks": [{"n": a[0], "p": a[1], "res": [], "err": [], "calls": 0, "cerr": [], "ends": []} for a in asks_for(g["G"], list(w), g["B"])]})
+        if not cases:
+            return
+        inp = r.path("esc-%d.ndjson" % r._k)
+        core.write_ndjson(inp, cases)
+        tr = r.path("esc-trace-%d.ndjson" % r._k)
+        r.pvh("parse", "replay", **{"in": inp, "out": r.path("esc-%d.json" % r._k), "trace": tr, "watch": 1 if "C07" in props else 0, "trees": 1 if "C01" in props else 0})
+        rows = core.read_ndjson(tr)
+        before = res["violations"]
+        judge_file(r, tr, rows, props, res)
+        res["escalation"] = {"grammars": len(grammars), "cases": len(cases), "violations_found": res["violations"] - before}
+        r.evaluations += len(cases)
+    finally:
+        r._escalating = False
 
 
 def replay_cases(r, cases, tag, props, watch=False, budget=4000, validate=True, chunks=None, trees=False):
